@@ -18,6 +18,7 @@ RULE = ("grammar-generated task programs (profiles %s; trees and DAGs of tasks, 
         "and raising flushes, nested yield structures, errors, try/except, synchronous re-entry, contexts) interpreted on "
         "the real scheduler and replayed in the Lean machine with the implementation's flush choices; non-trivial = at "
         "least 2 tasks and 1 scheduler flush; distinct by hash of (configuration, programs)" % (", ".join(p for p, _ in MIX)))
+RULE += "; plus family crossthread (two threads in mid-computation at the same time, warmed-up worker threads, root tasks prepared on one thread and computed on another; per-thread flush counts = own longest chain, no batch flushed by another thread's scheduler), judged by direct expectation (Drv/Families6t.lean)"
 TRUSTED = cc.TRUSTED_CORE
 ASSUMPTIONS = cc.ASSUMPTIONS_CORE
 
@@ -36,6 +37,7 @@ def extra(tier, rng):
         res.append({"cfg": {"kinds": {}}, "profile": "staggered", "tops": [["value", coregen.staggered(ws)]]})
     res.append({"cfg": {"kinds": {}}, "family": ["wide", 1100 if tier == "quick" else 2600]})
     res += cc.corefam4.eventhook_cases(tier, cc.fork(rng, "eventhook")) + cc.corefam4.debugthreads_cases(tier, cc.fork(rng, "debugthreads"))
+    res += cc.corefam6t.crossthread_cases(tier, cc.fork(rng, "crossthread"))
     return res
 
 
